@@ -42,6 +42,7 @@ func init() {
 		checkActionTyping(r, ga, "c15")
 		checkKeywordBoundary(r, ga, "c15")
 		checkEngineInvariants(r, prog, "c15")
+		checkBinaryActions(r, ga, "c15")
 		// (c) the actions build the prescribed nodes: selector path parts, operator constants, literal text
 		r.importing = "C07"
 		checkSelectorGrammar(r, ga, "c07")
@@ -64,6 +65,7 @@ func init() {
 		}
 		ga := NewGA(prog, g.Tab)
 		checkExposure(r, ga)
+		checkBinaryActions(r, ga, "c15")
 		checkDoubleNegation(r, ga)
 		checkLiteralFidelity(r, ga)
 		checkKeywordBoundary(r, ga, "c16")
@@ -72,6 +74,12 @@ func init() {
 		checkSelectorString(r, prog, "c19") // a bare value's text is Selector.String(): dotted join of the parts
 		r.importing = "C15"
 		checkEngineInvariants(r, prog, "c15") // a literal containing U+FFFD is valid; a long chain parses like a short one
+		r.importing = "C07"
+		checkSelectorGrammar(r, ga, "c07") // a selector's parts are the text that was written (no numeric or case normalisation)
+		if a16 := FindAnchors(prog); len(a16.Missing) == 0 {
+			r.importing = "C10"
+			checkCreateEvaluator(r, prog, a16, ga, "c10") // what is evaluated is the parse of exactly the text given, every time
+		}
 		r.importing = ""
 		r.Technique = "grammar analyses on the rule table: operator-exposure stratification, double-negation fold (typed AST of the action), strconv.Unquote of the whole match, choice shadowing by FIRST-set overlap, keyword boundary by FOLLOW sets"
 		r.Explain = "Decides the facts the statement asserts about the grammar: which operators each operand position can expose without brackets (not > and > or, right grouping, parentheses and braces reset), the not-action folds a double negation to the inner operand, the string-literal action is strconv.Unquote applied to exactly the matched text spanning both delimiters, no alternative ordered before the string-literal alternative of the value rule can start with a quote character, keywords cannot run into identifiers, and the optional-whitespace rule matches only whitespace. NOT decided: equality of trees after print-then-parse over all trees and renderings (there is no printer in the repository)."
